@@ -47,6 +47,9 @@ class FuncVal:
         self.is_property = False
         self.is_static = False
         self.is_classmethod = False
+        self.default_vals = None      # positional defaults, evaluated when the def / lambda is executed (Python semantics); None = not yet
+        self.kwdefault_vals = None
+        self.setter = None            # for a property: the function given to @x.setter
 
     @property
     def name(self):
@@ -130,6 +133,11 @@ class Instance:
     def __eq__(self, other):
         if self is other:
             return True
+        ti = self.tuple_items() if self.cls is not None and hasattr(self.cls, 'bases') else None
+        if ti is not None and self._dunder('__eq__') is None:
+            # a typing.NamedTuple instance is a tuple
+            oi = other.tuple_items() if isinstance(other, Instance) else (list(other) if isinstance(other, tuple) else None)
+            return oi is not None and list(ti) == list(oi)
         f = self._dunder('__eq__')
         if f is not None and Interp.current is not None:
             r = Interp.current.call_function(f, [self, other], {}, None)
@@ -465,6 +473,7 @@ class Interp:
         if frame.func is None and getattr(frame, 'class_qual', None):
             qual = frame.class_qual + '.' + st.name
         fv = FuncVal(st, frame if frame.func is not None else None, frame.module, qual)
+        self.eval_defaults(fv, frame)
         val = fv
         for dec in reversed(st.decorator_list):
             d = self.eval(dec, frame)
@@ -521,13 +530,58 @@ class Interp:
                     for kw in dec.keywords:
                         if kw.arg == 'frozen':
                             cls.frozen = bool(self.eval(kw.value, frame))
+                        elif kw.arg == 'eq':
+                            cls.dataclass_eq = bool(self.eval(kw.value, frame))
+                        elif kw.arg not in ('repr', 'init'):
+                            self.fail(f'dataclass({kw.arg}=...) not modelled', dec)
             else:
                 self.fail('unsupported class decorator', dec)
+        kinds = [ENUM_BASES.get(b.path) for b in bases if isinstance(b, ExtRef)] + [getattr(b, 'enum_kind', None) for b in bases if isinstance(b, ClassVal)]
+        kinds = [k for k in kinds if k]
+        if any(isinstance(b, ExtRef) and b.path.startswith('enum.') and b.path not in ENUM_BASES for b in bases):
+            self.fail('enum base class not modelled', st)
+        if kinds:
+            self.make_enum(cls, kinds[0], st)
         if is_record:
             cls.record_fields = annotations
             cls.record_frame = cframe
             cls.is_namedtuple = any(isinstance(b, ExtRef) and b.path == 'typing.NamedTuple' for b in bases)
         self.bind(frame, st.name, cls)
+
+    def make_enum(self, cls, kind, node):
+        """class attributes of an Enum class become its members (singletons; IntEnum members are ints)"""
+        cls.enum_kind = kind
+        cls.enum_members = collections.OrderedDict()
+        auto = 0
+        for name, val in list(cls.attrs.items()):
+            if name.startswith('_') or isinstance(val, (FuncVal, ClassVal, BoundMethod)):
+                continue
+            if isinstance(val, tuple) and val[:1] == ('enum-auto',):
+                val = auto + 1
+            if isinstance(val, int) and not isinstance(val, bool):
+                auto = int(val)
+            if kind == 'int':
+                if not isinstance(val, int) or isinstance(val, bool):
+                    self.fail('IntEnum member whose value is not an int', node)
+                member = next((m for m in cls.enum_members.values() if int(m) == val), None) or EnumInt(val, name, cls)
+            else:
+                member = next((m for m in cls.enum_members.values() if m.attrs['value'] == val), None)      # an alias of an earlier member
+                if member is None:
+                    member = Instance(cls)
+                    member.attrs.update(name=name, value=val, _name_=name, _value_=val)
+            cls.enum_members[name] = member
+            cls.attrs[name] = member
+
+    def enum_lookup(self, cls, value, node):
+        for m in cls.enum_members.values():
+            mv = int(m) if isinstance(m, EnumInt) else m.attrs['value']
+            try:
+                same = (mv == value) is True
+            except Exception:
+                same = False
+            if same or m is value:
+                return m
+        raise AbsRaise(ExcVal('ValueError', (f'{value!r} is not a valid {cls.name}',)), node)
 
     def st_Return(self, st, frame):
         v = self.eval(st.value, frame) if st.value is not None else None
@@ -803,7 +857,8 @@ class Interp:
         if c is True:
             return
         if c is False:
-            raise AbsRaise(ExcVal('AssertionError'), st)
+            msg = (self.eval(st.msg, frame),) if st.msg is not None else ()
+            raise AbsRaise(ExcVal('AssertionError', msg), st)
         self.fail('assert on undecided condition', st)
 
     def st_Try(self, st, frame):
@@ -991,6 +1046,10 @@ class Interp:
             except KeyError:
                 if name == '__name__':
                     return obj.name
+                if name == '__members__' and getattr(obj, 'enum_members', None) is not None:
+                    return dict(obj.enum_members)
+                if not self.all_repo_bases(obj):
+                    self.fail(f'attribute {name!r} of class {obj.name} (library base class)', node)
                 raise AbsRaise(ExcVal('AttributeError', (f'class {obj.name} has no attribute {name}',)), node)
             if isinstance(v, FuncVal) and v.is_classmethod:
                 return BoundMethod(obj, v)
@@ -1004,6 +1063,29 @@ class Interp:
                 return obj.module.name
             if name == '__qualname__':
                 return obj.qualname
+            if obj.is_property and name in ('setter', 'getter', 'deleter'):
+                from .models import PyCallable
+                prop = obj
+
+                def deco(it, a, k, n):
+                    if name == 'setter':
+                        prop.setter = a[0]
+                    elif name == 'getter':
+                        a[0].is_property = True
+                        a[0].setter = prop.setter
+                        return a[0]
+                    else:
+                        it.fail('property deleter not modelled', n)
+                    return prop
+                return PyCallable(deco, f'property.{name}')
+            if name in ('__doc__', '__dict__', '__defaults__', '__kwdefaults__', '__code__', '__closure__', '__annotations__', '__wrapped__', '__call__', '__get__'):
+                if name == '__doc__':
+                    return ast.get_docstring(obj.node) if hasattr(obj.node, 'body') and isinstance(obj.node.body, list) else None
+                if name == '__dict__':
+                    return obj.attrs
+                if name == '__wrapped__':
+                    raise AbsRaise(ExcVal('AttributeError', (f"'function' object has no attribute '__wrapped__'",)), node)
+                self.fail(f'function attribute {name} not modelled', node)
             raise AbsRaise(ExcVal('AttributeError', (f'function has no attribute {name}',)), node)
         if isinstance(obj, BoundMethod):
             return self._getattr(obj.func, name, node)
@@ -1026,6 +1108,16 @@ class Interp:
         if isinstance(obj, Instance):
             if obj.cls.frozen and not getattr(obj, '_constructing', False):
                 raise AbsRaise(ExcVal('AttributeError', ('frozen instance',)), node)
+            try:
+                cv = obj.cls.lookup(name)
+            except KeyError:
+                cv = None
+            if isinstance(cv, FuncVal) and cv.is_property:
+                # a data descriptor on the class wins over the instance dictionary
+                if cv.setter is None:
+                    raise AbsRaise(ExcVal('AttributeError', (f"property '{name}' of '{obj.cls.name}' object has no setter",)), node)
+                self.call_function(cv.setter, [obj, v], {}, node)
+                return
             self.models.mutation(self, obj, f'.{name} =', node)
             obj.attrs[name] = v
             return
@@ -1103,16 +1195,32 @@ class Interp:
             if isinstance(v, ast.Constant):
                 parts.append(str(v.value))
             else:
-                val = self.eval(v.value, frame)
-                parts.append(self.models.to_str(self, val, v))
+                parts.append(self.ex_FormattedValue(v, frame))
         return ''.join(parts)
 
     def ex_FormattedValue(self, node, frame):
-        return self.models.to_str(self, self.eval(node.value, frame), node)
+        val = self.eval(node.value, frame)
+        spec = self.eval(node.format_spec, frame) if node.format_spec is not None else ''
+        if node.conversion in (-1, None) and not spec:
+            return self.models.to_str(self, val, node)
+        from .models_lib import plain_for_format
+        pv = plain_for_format(self.models, self, val, node)
+        if node.conversion == ord('r'):
+            pv = repr(pv)
+        elif node.conversion == ord('s'):
+            pv = str(pv)
+        elif node.conversion == ord('a'):
+            pv = ascii(pv)
+        try:
+            return format(pv, spec)
+        except (ValueError, TypeError) as e:
+            raise AbsRaise(ExcVal(type(e).__name__, (str(e),)), node)
 
     def ex_Lambda(self, node, frame):
         qual = (frame.func.qualname + '.' if frame.func else '') + '<lambda>'
-        return FuncVal(node, frame, frame.module, qual)
+        fv = FuncVal(node, frame, frame.module, qual)
+        self.eval_defaults(fv, frame)
+        return fv
 
     def ex_IfExp(self, node, frame):
         c = self.truth(self.eval(node.test, frame), node.test)
@@ -1273,6 +1381,10 @@ class Interp:
             return self.call_function(fn, args, kwargs, node)
         if isinstance(fn, BoundMethod):
             return self.call_function(fn.func, [fn.self_val] + list(args), kwargs, node)
+        if isinstance(fn, ClassVal) and getattr(fn, 'enum_members', None) is not None:
+            if len(args) != 1 or kwargs:
+                self.fail('functional Enum API not modelled', node)
+            return self.enum_lookup(fn, args[0], node)
         if isinstance(fn, ClassVal):
             return self.instantiate(fn, args, kwargs, node)
         if isinstance(fn, Instance):
@@ -1401,15 +1513,17 @@ class Interp:
         """generators are run eagerly; the yielded values are collected into a list"""
         frame.yielded = []
         pending = None
+        retval = None
         try:
             self.exec_block(fv.node.body, frame)
-        except _Return:
-            pass
+        except _Return as r:
+            retval = r.value if hasattr(r, 'value') else (r.args[0] if r.args else None)
         except AbsRaise as e:
             # the body of a generator runs when it is iterated, not when it is called: the exception belongs to the consumer
             pending = e
         g = GenResult(frame.yielded)
         g.pending = pending
+        g.retval = retval           # the value of `yield from` in a delegating generator
         return g
 
     def ex_Yield(self, node, frame):
@@ -1430,7 +1544,27 @@ class Interp:
             if f is None:
                 self.fail('yield outside generator', node)
         f.yielded.extend(self.iterate(v, node))
-        return None
+        return getattr(v, 'retval', None) if isinstance(v, GenResult) else None
+
+    _LAZY = object()
+
+    def eval_defaults(self, fv, frame):
+        """default values are evaluated once, when the def / lambda is executed, in the defining scope; the objects are kept (a mutable default is
+        state shared by all calls).  A default the analyser cannot evaluate is left for the call that needs it."""
+        a = fv.node.args
+        def one(d):
+            if d is None:
+                return None
+            try:
+                return self.eval(d, frame)
+            except AnalysisError:
+                return self._LAZY
+        fv.default_vals = [one(d) for d in a.defaults]
+        fv.kwdefault_vals = [one(d) for d in a.kw_defaults]
+        reg = self.__dict__.setdefault('default_objects', {})
+        for v in fv.default_vals + fv.kwdefault_vals:
+            if isinstance(v, (list, dict, set)):
+                reg[id(v)] = (v, f'module-state:default argument of {fv.qualname}')
 
     def bind_params(self, fv, frame, args, kwargs, node):
         a = fv.node.args
@@ -1448,7 +1582,8 @@ class Interp:
             elif p in kwargs:
                 frame.locals[p] = kwargs.pop(p)
             elif i >= first_def:
-                frame.locals[p] = self.eval(defaults[i - first_def], self.def_frame(fv))
+                dv = fv.default_vals[i - first_def] if fv.default_vals is not None else self._LAZY
+                frame.locals[p] = self.eval(defaults[i - first_def], self.def_frame(fv)) if dv is self._LAZY else dv
             else:
                 raise AbsRaise(ExcVal('TypeError', (f'{fv.name}() missing argument {p}',)), node)
         extra = args[len(params):]
@@ -1456,11 +1591,12 @@ class Interp:
             frame.locals[a.vararg.arg] = tuple(extra)
         elif extra:
             raise AbsRaise(ExcVal('TypeError', (f'{fv.name}() takes {len(params)} positional arguments',)), node)
-        for p, d in zip(a.kwonlyargs, a.kw_defaults):
+        for j, (p, d) in enumerate(zip(a.kwonlyargs, a.kw_defaults)):
             if p.arg in kwargs:
                 frame.locals[p.arg] = kwargs.pop(p.arg)
             elif d is not None:
-                frame.locals[p.arg] = self.eval(d, self.def_frame(fv))
+                dv = fv.kwdefault_vals[j] if fv.kwdefault_vals is not None else self._LAZY
+                frame.locals[p.arg] = self.eval(d, self.def_frame(fv)) if dv is self._LAZY else dv
             else:
                 raise AbsRaise(ExcVal('TypeError', (f'missing keyword-only argument {p.arg}',)), node)
         if a.kwarg:
@@ -1489,6 +1625,13 @@ class Interp:
     def iterate(self, v, node):
         if isinstance(v, GenList):
             return list(v[v.pos:])
+        if isinstance(v, ClassVal) and getattr(v, 'enum_members', None) is not None:
+            seen, out = set(), []
+            for m in v.enum_members.values():       # aliases are not listed
+                if id(m) not in seen:
+                    seen.add(id(m))
+                    out.append(m)
+            return out
         if isinstance(v, (list, tuple)):
             return list(v)
         if isinstance(v, (dict, set, frozenset, str, range)):
@@ -1507,6 +1650,20 @@ class Interp:
                           reversed, filter)):
             return list(v)
         return self.models.iterate(self, v, node)
+
+
+class EnumInt(int):
+    """a member of an enum.IntEnum / IntFlag class of the repository: an int for every purpose (as in Python), with a name and its class"""
+    def __new__(cls, value, name, owner):
+        o = int.__new__(cls, value)
+        o.enum_name, o.enum_cls = name, owner
+        return o
+
+    def __repr__(self):
+        return f'<{self.enum_cls.name}.{self.enum_name}: {int(self)}>'
+
+
+ENUM_BASES = {'enum.Enum': 'plain', 'enum.IntEnum': 'int', 'enum.IntFlag': 'int', 'enum.Flag': 'plain'}
 
 
 class GenList(list):
